@@ -887,6 +887,36 @@ fn mutants(v: &BlockHeader, prev: &BlockHeader, gp: Option<Hash>, rng: &mut Rng)
 			!k1_grows,
 		);
 		add("output_mmr_size=0", &|h| h.output_mmr_size = 0, remined, true);
+		// the lower bound on the block weight at the limit: 11 new outputs and 6 new kernels weigh
+		// 11*21 + 6*3 = 249 <= 250 (a header the rules allow), one kernel more weighs 252
+		{
+			let size_for = |leaves: u64| grin_core::core::pmmr::insertion_to_pmmr_index(leaves);
+			let po = grin_core::core::pmmr::n_leaves(prev.output_mmr_size);
+			let pk = grin_core::core::pmmr::n_leaves(prev.kernel_mmr_size);
+			let maxw = global::max_block_weight();
+			// the most kernels that still fit beside 11 outputs, and one more
+			let k_fit = (maxw.saturating_sub(11 * consensus::OUTPUT_WEIGHT)) / consensus::KERNEL_WEIGHT;
+			if k_fit >= 1 {
+				add(
+					"weight=max-fitting",
+					&|h| {
+						h.output_mmr_size = size_for(po + 11);
+						h.kernel_mmr_size = size_for(pk + k_fit);
+					},
+					remined,
+					false,
+				);
+				add(
+					"weight=first-too-heavy",
+					&|h| {
+						h.output_mmr_size = size_for(po + 11);
+						h.kernel_mmr_size = size_for(pk + k_fit + 1);
+					},
+					remined,
+					true,
+				);
+			}
+		}
 		// more outputs than a block can carry
 		add(
 			"output_mmr_size+heavy",
@@ -2267,6 +2297,315 @@ fn run_dbwin(out: &mut Out, rng: &mut Rng, thorough: bool) {
 }
 
 // ---------------------------------------------------------------------------------------------
+// forks mode: the difficulty window and the header MMR of a header are those of ITS OWN ancestors
+// ---------------------------------------------------------------------------------------------
+
+/// a header of the harness' header tree
+struct TreeHdr {
+	h: BlockHeader,
+	parent: Option<usize>,
+	/// (difficulty, secondary scaling) the rules fixed for it: next_difficulty over its own ancestors
+	rule: (u64, u32),
+}
+
+/// genesis ..= `i` along the parent links
+fn tree_path(tree: &[TreeHdr], i: usize) -> Vec<BlockHeader> {
+	let mut v = vec![];
+	let mut cur = Some(i);
+	while let Some(c) = cur {
+		v.push(tree[c].h.clone());
+		cur = tree[c].parent;
+	}
+	v.reverse();
+	v
+}
+
+/// `wnode <id> hmmr`: the header hash the node's header MMR holds at every height up to header_head
+fn hmmr_line(out: &mut Out, id: &str, chain: &Chain) -> Vec<String> {
+	let hh = chain.header_head().unwrap();
+	let mut v = vec![];
+	for i in 0..=hh.height {
+		v.push(match pc(|| chain.get_header_by_height(i)) {
+			Some(Ok(h)) => h64(&h.hash()).to_string(),
+			_ => format!("err@{}", i),
+		});
+	}
+	out.line(&format!("cons wnode {} hmmr", id), &format!("[{}]", v.join(",")));
+	v
+}
+
+fn run_forks(out: &mut Out, rng: &mut Rng, thorough: bool) {
+	let work = std::env::var("VERIF_WORK").unwrap_or_else(|_| "/verif/work/cons-forks.d".to_string());
+	let _ = std::fs::remove_dir_all(&work);
+	std::fs::create_dir_all(&work).unwrap();
+	let mut chains: Vec<(ChainTypes, &str, &str, u64, usize)> = vec![
+		(ChainTypes::Mainnet, "main", "fm", 1 << 17, if thorough { 500 } else { 160 }),
+		(ChainTypes::AutomatedTesting, "auto", "fa", 1000, if thorough { 400 } else { 120 }),
+		(ChainTypes::UserTesting, "user", "fu", 3000, if thorough { 250 } else { 70 }),
+	];
+	if thorough {
+		chains.push((ChainTypes::Testnet, "test", "ft", 1 << 16, 300));
+	}
+	for (ct, cn, id, g_td, n_steps) in chains.iter() {
+		global::set_local_chain_type(*ct);
+		let mut kr = KnownRun {
+			stats: Stats(BTreeMap::new()),
+			roots: BTreeMap::new(),
+			oracle_fails: 0,
+			tips: vec![],
+			sync_calls: 1,
+			always_ok: true,
+			dom: "wnode",
+			full: false,
+		};
+		let mut genesis = match ct {
+			ChainTypes::Mainnet => genesis::genesis_main(),
+			ChainTypes::Testnet => genesis::genesis_test(),
+			_ => genesis::genesis_dev(),
+		};
+		genesis.header.pow.total_difficulty = Difficulty::from_num(*g_td);
+		let chain = match pc(|| {
+			Chain::init(
+				format!("{}/{}", work, cn),
+				Arc::new(NoopAdapter {}),
+				genesis.clone(),
+				ok_verifier,
+				false,
+				None,
+			)
+		}) {
+			Some(Ok(c)) => c,
+			_ => {
+				out.raw(&format!("#ORACLE-FAIL C04 forks: cannot open a {} chain", cn));
+				continue;
+			}
+		};
+		out.line(&format!("cons wnode {} newct {} {}", id, cn, kr.fhdr(&genesis.header)), "ok");
+		kr.state(out, id, &chain);
+		let mut tree: Vec<TreeHdr> = vec![TreeHdr {
+			h: genesis.header.clone(),
+			parent: None,
+			rule: (*g_td, 0),
+		}];
+		// the header the rules make header_head: the first delivered one with the most work
+		let mut best: usize = 0;
+		let min_eb = global::min_edge_bits();
+		let second = consensus::SECOND_POW_EDGE_BITS;
+		let primaries: Vec<u8> = match ct {
+			ChainTypes::Mainnet | ChainTypes::Testnet => vec![31, 32, 33],
+			_ => vec![min_eb, min_eb + 1, 31],
+		};
+		let gap_of = |rng: &mut Rng| -> i64 {
+			match rng.below(8) {
+				0 => 1,
+				1 => rng.range(2, 30) as i64,
+				2 => 60,
+				3 => rng.range(61, 200) as i64,
+				4 => rng.range(200, 900) as i64,
+				5 => rng.range(900, 4000) as i64,
+				_ => rng.range(30, 120) as i64,
+			}
+		};
+		let mut gave_up = false;
+		for step in 0..*n_steps {
+			if gave_up {
+				break;
+			}
+			// where to build, how many headers, how they are delivered
+			let best_path_len = tree_path(&tree, best).len();
+			let (mut parent, len, kind): (usize, usize, &str) = match rng.below(10) {
+				0..=3 => (best, rng.range(1, 3) as usize, "extend"),
+				4..=7 if best_path_len > 2 => {
+					// fork off the best chain `depth` headers below its tip
+					let max_depth = (best_path_len - 1).min(if rng.chance(1, 6) { 70 } else { 7 });
+					let depth = rng.range(1, max_depth as u64) as usize;
+					let mut fp = best;
+					for _ in 0..depth {
+						fp = tree[fp].parent.unwrap();
+					}
+					// long enough to overtake about half of the time
+					let len = if rng.chance(1, 2) { depth + rng.range(1, 2) as usize } else { rng.range(1, depth as u64 + 1) as usize };
+					(fp, len.min(80), "fork")
+				}
+				8 if tree.len() > 3 => {
+					// grow some other header of the tree (an abandoned tip, or an inner header)
+					(rng.below(tree.len() as u64) as usize, rng.range(1, 3) as usize, "regrow")
+				}
+				_ => (best, 1, "extend"),
+			};
+			kr.stats.hit(&format!("step_{}", kind));
+			let chunked = len > 1 && rng.chance(1, 2);
+			let mut chunk: Vec<BlockHeader> = vec![];
+			let mut chunk_idx: Vec<usize> = vec![];
+			for k in 0..len {
+				let path = tree_path(&tree, parent);
+				let prev = path.last().unwrap().clone();
+				let tw = true_window(&path);
+				let next = consensus::next_difficulty(prev.height + 1, tw);
+				let root = header_mmr_root(&path);
+				let eb = if rng.chance(4, 10) { second } else { *rng.pick(&primaries) };
+				let gap = gap_of(rng);
+				let (d0, s0) = (next.difficulty.to_num(), next.secondary_scaling);
+				let exact = match make_db_header(rng, &prev, root, d0, s0, eb, gap, true) {
+					Some(h) => h,
+					None => {
+						out.raw(&format!("#STAT forks {}: no proof reaching difficulty {} found at height {}", cn, d0, prev.height + 1));
+						gave_up = true;
+						break;
+					}
+				};
+				kr.roots.insert(exact.prev_hash.to_vec(), root);
+				let v5 = exact.version.0 >= 5;
+				// what the rules fixed for OTHER headers of the same height (other ancestors): offered
+				// on this parent they must be refused wherever they differ from this branch's values
+				let mut wrong: Vec<(String, u64, u32)> = vec![];
+				for t in tree.iter() {
+					if t.h.height == exact.height && t.parent != Some(parent) {
+						let (d, s) = t.rule;
+						if d != d0 {
+							wrong.push(("other-branch-difficulty".to_string(), d, s0));
+						}
+						if !v5 && s != s0 {
+							wrong.push(("other-branch-scaling".to_string(), d0, s));
+						}
+					}
+				}
+				wrong.sort();
+				wrong.dedup();
+				wrong.truncate(3);
+				if rng.chance(1, 3) {
+					wrong.push(("difficulty+1".to_string(), d0 + 1, s0));
+					wrong.push(("difficulty-1".to_string(), d0 - 1, s0));
+				}
+				let hh_before = chain.header_head().unwrap();
+				for (wkind, d, s) in wrong.iter() {
+					let m = match make_db_header(rng, &prev, root, *d, *s, eb, gap, true) {
+						Some(m) => m,
+						None => continue,
+					};
+					out.raw(&format!("# forks {} step {} height {} {} (rule: {} {})", cn, step, m.height, wkind, d0, s0));
+					kr.stats.hit(&format!("variant_{}", wkind));
+					let class = if chunked && !chunk.is_empty() {
+						let mut batch = chunk.clone();
+						batch.push(m.clone());
+						kr.sync(out, id, &chain, Options::NONE, &batch)
+					} else if chunked {
+						continue;
+					} else {
+						kr.pbh(out, id, &chain, Options::NONE, &m)
+					};
+					let hh = chain.header_head().unwrap();
+					if class.starts_with("ok") || class == "panic" || hh.last_block_h != hh_before.last_block_h
+						|| chain.get_block_header(&m.hash()).is_ok()
+					{
+						kr.fail(out, format!("forks {}: header on a side branch with {} {}/{} (its own ancestors fix difficulty {} scaling {}) not refused: {} hdr={} own_window={}", cn, wkind, d, s, d0, s0, class, show_stored(&m), show_window(&true_window(&path))));
+					}
+					if chunked && !chunk.is_empty() && chain.get_block_header(&chunk[0].hash()).is_ok() {
+						kr.fail(out, format!("forks {}: first header of a refused chunk stored: {}", cn, show_stored(&chunk[0])));
+					}
+				}
+				// the exact header
+				tree.push(TreeHdr {
+					h: exact.clone(),
+					parent: Some(parent),
+					rule: (d0, s0),
+				});
+				let me = tree.len() - 1;
+				parent = me;
+				kr.stats.hit(if eb == second { "hdr_secondary" } else { "hdr_primary" });
+				kr.stats.hit(&format!("hdr_v{}", exact.version.0));
+				chunk.push(exact.clone());
+				chunk_idx.push(me);
+				if chunked && k + 1 < len {
+					continue;
+				}
+				// deliver what has been built and not delivered yet
+				out.raw(&format!("# forks {} step {} {} height {} {} header(s)", cn, step, kind, exact.height, chunk.len()));
+				let old_best = best;
+				let class = if chunked {
+					kr.stats.hit(&format!("chunk_len_{}", chunk.len()));
+					kr.sync(out, id, &chain, Options::NONE, &chunk)
+				} else {
+					kr.pbh(out, id, &chain, Options::NONE, &exact)
+				};
+				if !class.starts_with("ok") {
+					kr.fail(out, format!("forks {}: header(s) carrying exactly the difficulty and scaling of their own ancestors refused: {} last={} own_window={}", cn, class, show_stored(&exact), show_window(&true_window(&path))));
+					gave_up = true;
+					break;
+				}
+				// header_head moves only to a (last) header with strictly more work
+				let cand = *chunk_idx.last().unwrap();
+				if tree[cand].h.pow.total_difficulty > tree[best].h.pow.total_difficulty {
+					best = cand;
+				}
+				chunk.clear();
+				chunk_idx.clear();
+				kr.state(out, id, &chain);
+				let hh = chain.header_head().unwrap();
+				if hh.last_block_h != tree[best].h.hash() || hh.total_difficulty != tree[best].h.pow.total_difficulty {
+					kr.fail(out, format!("forks {}: header_head is {} but the most-work delivered header is {}", cn, show_tip(&hh), show_stored(&tree[best].h)));
+					gave_up = true;
+					break;
+				}
+				if best != old_best {
+					kr.tips.push(grin_chain::Tip::from_header(&tree[best].h));
+					let reorg = tree[best].parent != Some(old_best) && {
+						// not a plain extension of the old head
+						let p = tree_path(&tree, best);
+						!p.iter().any(|x| x.hash() == tree[old_best].h.hash())
+					};
+					if reorg {
+						kr.stats.hit("header_reorgs");
+						let depth = {
+							let pb = tree_path(&tree, best);
+							let po = tree_path(&tree, old_best);
+							let common = pb.iter().zip(po.iter()).take_while(|(a, b)| a.hash() == b.hash()).count();
+							po.len() - common
+						};
+						kr.stats.hit(&format!(
+							"reorg_depth_{}",
+							match depth {
+								0..=1 => "1",
+								2..=3 => "2-3",
+								4..=7 => "4-7",
+								8..=60 => "8-60",
+								_ => ">60",
+							}
+						));
+					}
+					if reorg || step % 5 == 0 {
+						// the header MMR holds exactly the ancestors of header_head
+						let real = hmmr_line(out, id, &chain);
+						let want: Vec<String> = tree_path(&tree, best).iter().map(|x| h64(&x.hash()).to_string()).collect();
+						kr.stats.hit("hmmr_compared");
+						if real != want {
+							kr.fail(out, format!("forks {}: the header MMR does not hold the ancestors of header_head after {}: mmr={:?} ancestors={:?}", cn, if reorg { "a reorg" } else { "an extension" }, real, want));
+						}
+					}
+				}
+				// the store-backed difficulty iterator from the delivered tip: its OWN ancestors
+				let own = tree_path(&tree, me);
+				let real: Vec<HeaderDifficultyInfo> = window_at(&chain, exact.hash()).into_iter().take(61).collect();
+				let want: Vec<HeaderDifficultyInfo> = true_window(&own).into_iter().take(61).collect();
+				let (rs, ws) = (show_window(&real), show_window(&want));
+				out.line(&format!("cons wnode {} window {}", id, h64(&exact.hash())), &rs);
+				kr.stats.hit(if me == best { "windows_read_back_best" } else { "windows_read_back_side" });
+				if rs != ws {
+					kr.fail(out, format!("forks {}: DifficultyIter from {} differs from its ancestors as delivered: store={} delivered={}", cn, show_stored(&exact), rs, ws));
+				}
+			}
+		}
+		if kr.oracle_fails == 0 {
+			kr.stats.hit("oracle_ok");
+		}
+		kr.stats.0.insert("headers".to_string(), (tree.len() - 1) as u64);
+		let leaves = (0..tree.len()).filter(|i| !tree.iter().any(|t| t.parent == Some(*i))).count();
+		kr.stats.0.insert("tree_leaves".to_string(), leaves as u64);
+		kr.stats.dump(out, &format!("forks {}", cn));
+	}
+}
+
+// ---------------------------------------------------------------------------------------------
 // roots mode: what a header commits to about its ancestors (prev_root), at every chunk position
 // ---------------------------------------------------------------------------------------------
 
@@ -3163,6 +3502,45 @@ fn untrusted_lines(out: &mut Out, stats: &mut Stats, v: &BlockHeader, rng: &mut 
 		&|h| h.output_mmr_size = grin_core::core::pmmr::insertion_to_pmmr_index(10 * (h.height + 1)),
 		true,
 	);
+	// the global bound max_block_weight * (height + 1) at its edge: the heaviest (outputs, kernels)
+	// total that still fits and the lightest that does not (kernels 1..=8)
+	{
+		let bound = global::max_block_weight().saturating_mul(v.height + 1);
+		let mut best_fit: Option<(u64, u64, u64)> = None;
+		let mut best_over: Option<(u64, u64, u64)> = None;
+		for k in 1..=8u64 {
+			let o = (bound.saturating_sub(k * consensus::KERNEL_WEIGHT)) / consensus::OUTPUT_WEIGHT;
+			for oo in [o, o + 1] {
+				let w = oo * consensus::OUTPUT_WEIGHT + k * consensus::KERNEL_WEIGHT;
+				if w <= bound && best_fit.map_or(true, |b| w > b.0) {
+					best_fit = Some((w, oo, k));
+				}
+				if w > bound && best_over.map_or(true, |b| w < b.0) {
+					best_over = Some((w, oo, k));
+				}
+			}
+		}
+		if let Some((_, o, k)) = best_fit {
+			add(
+				"global-weight=max-fitting+pow",
+				&|h| {
+					h.output_mmr_size = grin_core::core::pmmr::insertion_to_pmmr_index(o);
+					h.kernel_mmr_size = grin_core::core::pmmr::insertion_to_pmmr_index(k);
+				},
+				true,
+			);
+		}
+		if let Some((_, o, k)) = best_over {
+			add(
+				"global-weight=first-over+pow",
+				&|h| {
+					h.output_mmr_size = grin_core::core::pmmr::insertion_to_pmmr_index(o);
+					h.kernel_mmr_size = grin_core::core::pmmr::insertion_to_pmmr_index(k);
+				},
+				true,
+			);
+		}
+	}
 	for (kind, h) in cases {
 		let bytes = match ser::ser_vec(&h, ProtocolVersion::local()) {
 			Ok(b) => b,
@@ -3184,6 +3562,16 @@ fn untrusted_lines(out: &mut Out, stats: &mut Stats, v: &BlockHeader, rng: &mut 
 			Some(Err(e)) => format!("Other:{:?}", e).replace(' ', "_"),
 		};
 		stats.hit(&format!("uhdr_{}", class));
+		if kind.starts_with("global-weight=") {
+			stats.hit(&format!("uhdr_{}_{}", kind, class));
+			let want_ok = kind.starts_with("global-weight=max-fitting");
+			if (class == "ok") != want_ok {
+				out.raw(&format!(
+					"#ORACLE-FAIL C04 network header at the edge of the global weight bound ({}) answered {}: max_block_weight={} hdr={}",
+					kind, class, global::max_block_weight(), show_hdr(&h)
+				));
+			}
+		}
 		if class == "ok" && h.timestamp.timestamp() > now + ftl as i64 + 60 {
 			out.raw(&format!(
 				"#ORACLE-FAIL C04 header beyond the future-time limit decoded from the network: now={} ftl={} hdr={}",
@@ -4512,10 +4900,11 @@ fn main() {
 		"globals" => run_globals(&mut out, &mut rng, thorough),
 		"dbwin" => run_dbwin(&mut out, &mut rng, thorough),
 		"roots" => run_roots(&mut out, &mut rng, thorough),
+		"forks" => run_forks(&mut out, &mut rng, thorough),
 		"powsize" => run_powsize(&mut out, &mut rng, thorough),
 		"wire" => run_wire(&mut out, &mut rng, thorough),
 		_ => {
-			eprintln!("usage: cons diff|chain|known|globals|dbwin|roots|powsize|wire");
+			eprintln!("usage: cons diff|chain|known|globals|dbwin|roots|forks|powsize|wire");
 			std::process::exit(2);
 		}
 	}
